@@ -21,6 +21,8 @@ def run(repo, res, tier):
     lexrules.rule_lookahead(repo, res)
     from .. import langrules
     langrules.rule_lookahead_lang(repo, res, langrules.analyse(repo))
+    # CR LF labels read through binary entry points keep their CR: the dash-continuation removal covers every line end
+    langrules.rule_dash(repo, res, langrules.analyse(repo))
     apirules.rule_f1(repo, res, "__init__")
     if "new" in repo.modules:
         apirules.rule_f1(repo, res, "new")
